@@ -53,6 +53,13 @@ def pattern_groups(L, action="{ }", api="NR", prefix="N", vartrail=True, bol=Fal
         name = "%sT%d" % (prefix, i)
         rules = [H.Rule(h, trail=tr, eol=eol, scs=[name], text=t, action=action), H.Rule(NL, scs=[name], action=action)]
         groups.append(H.Group([(name, True)], rules, name, ALPHA, L, label="nl-trail:" + t))
+    # tokens that contain a NUL before a newline: the line count walks the whole token, not a C string
+    nz = [("[a\\0\\n]+", R.plus(('set', frozenset({97, 0, 10})))), ("a\\0\\n", R.cat(A, R.lit(0), NL)), ("\\0\\n\\n", R.cat(R.lit(0), NL, NL)),
+          ("(?s:.)+", R.plus(('set', R.ALL)))]
+    for i, (t, a) in enumerate(nz):
+        name = "%sZ%d" % (prefix, i)
+        groups.append(H.Group([(name, True)], [H.Rule(a, scs=[name], text=t, action=action), H.Rule(NL, scs=[name], action=action)], name, b"a\0\n", L,
+                              [b"a\0\n\n", b"\0\n\na\n", b"a\0\na\0\n"], label="nl-nul:" + t))
     if bol:
         # '^' rules (only generated for harnesses that do not use yyless/yyunput)
         bl = [("^a\\n", R.cat(A, NL)), ("^\\n", NL), ("^[^b]+", R.plus(('set', frozenset(R.ALL - {98})))), ("^a", A), ("^b\\n?", R.cat(B, R.opt(NL)))]
